@@ -45,6 +45,46 @@ pub(crate) mod verif_kani {
         assert!(Op::from_with_not(String::from("like"), true) == Some(Op::NotLike), "OBL C03.from_with_not: not like");
     }
 
+    // ---- C11 / C02: alias tables (docs/usage.md operator list), each spelling in lower and UPPER case ----
+    macro_rules! alias {
+        ($h:ident, $expect:expr, $($sp:expr),+) => {
+            #[kani::proof]
+            #[kani::unwind(12)]
+            fn $h() {
+                kani::cover!(true);
+                $( assert!(Op::from(String::from($sp)) == $expect, concat!("OBL C11.alias.op: spelling ", $sp)); )+
+            }
+        };
+    }
+    alias!(c11_op_eq, Some(Op::Eq), "=", "==", "eq", "EQ");
+    alias!(c11_op_ne, Some(Op::Ne), "!=", "<>", "ne", "NE");
+    alias!(c11_op_eeq, Some(Op::Eeq), "===", "eeq", "EEQ");
+    alias!(c11_op_ene, Some(Op::Ene), "!==", "ene", "ENE");
+    alias!(c11_op_gt, Some(Op::Gt), ">", "gt", "GT");
+    alias!(c11_op_gte, Some(Op::Gte), ">=", "gte", "ge", "GTE", "GE");
+    alias!(c11_op_lt, Some(Op::Lt), "<", "lt", "LT");
+    alias!(c11_op_lte, Some(Op::Lte), "<=", "lte", "le", "LTE", "LE");
+    alias!(c11_op_rx, Some(Op::Rx), "=~", "~=", "regexp", "rx", "REGEXP", "RX");
+    alias!(c11_op_notrx, Some(Op::NotRx), "!=~", "!~=", "notrx", "NOTRX");
+    alias!(c11_op_like, Some(Op::Like), "like", "LIKE", "Like");
+    alias!(c11_op_notlike, Some(Op::NotLike), "notlike", "NOTLIKE");
+    alias!(c11_op_between, Some(Op::Between), "between", "BETWEEN");
+    macro_rules! arith {
+        ($h:ident, $expect:expr, $($sp:expr),+) => {
+            #[kani::proof]
+            #[kani::unwind(12)]
+            fn $h() {
+                kani::cover!(true);
+                $( assert!(ArithmeticOp::from(String::from($sp)) == $expect, concat!("OBL C11.alias.arith: spelling ", $sp)); )+
+            }
+        };
+    }
+    arith!(c11_arith_add, Some(ArithmeticOp::Add), "+", "plus", "PLUS");
+    arith!(c11_arith_sub, Some(ArithmeticOp::Subtract), "-", "minus", "MINUS");
+    arith!(c11_arith_mul, Some(ArithmeticOp::Multiply), "*", "mul", "MUL");
+    arith!(c11_arith_div, Some(ArithmeticOp::Divide), "/", "div", "DIV");
+    arith!(c11_arith_mod, Some(ArithmeticOp::Modulo), "%", "mod", "MOD");
+
     #[kani::proof]
     fn canary_ops_must_fail() {
         let op = any_op();
